@@ -1,4 +1,5 @@
-CONSTANTS MaxHist = 3
+CONSTANTS Streams = {"s1", "s2", "s3"}
+ MaxHist = 3
  EmitAt = 3
 INIT Init
 NEXT Next
